@@ -366,14 +366,6 @@ Proof.
   - intros name. cbn. constructor.
 Qed.
 
-(** the keyword an object called [name] receives for its own parameter [t]:
-    specific "name_t" first, else the global "t" (unless the first component of
-    "t" is itself the name of an object of the collection) *)
-Definition eff (expected : list string) (kw : kwargs) (name : string) (t : path) : option val :=
-  match kw_last (name :: t) kw with
-  | Some v => Some v
-  | None => if mem (head_of t) expected then None else kw_last t kw
-  end.
 Lemma obj_kwargs_lookup kw expected name t split glob :
   ~ In "" expected -> unflatten_and_split kw expected = (split, glob) -> In name expected ->
   kw_get t (obj_kwargs name split glob) = eff expected kw name t.
@@ -1029,4 +1021,263 @@ Proof.
   - apply IH; [exact H2 | apply forallb_skipn, Hq].
   - exact H1.
   - apply IH; assumption.
+Qed.
+
+(** * Extensionality: the setters only look keywords up *)
+Lemma edge_set_params_ext tri e a kw1 kw2 :
+  (forall t, In t (map fst (edge_params tri e)) -> kw_get t kw1 = kw_get t kw2) ->
+  edge_set_params tri e a kw1 = edge_set_params tri e a kw2.
+Proof.
+  rewrite edge_params_cases. intros H. unfold edge_set_params, kw_get_or.
+  destruct (is_growth e) eqn:Eg.
+  - rewrite (growth_no_micro tri e Eg). rewrite (H ["growth"]) by (cbn; tauto). reflexivity.
+  - destruct (has_micro tri e).
+    + rewrite (H ["spread"]), (H ["micro"]) by (cbn; tauto). reflexivity.
+    + rewrite (H ["spread"]) by (cbn; tauto). reflexivity.
+Qed.
+Lemma set_edges_for_ext tri sel s1 g1 s2 g2 es : forall a,
+  (forall e t, In e es -> sel e = true -> In t (map fst (edge_params tri e)) ->
+     kw_get t (obj_kwargs (e_name e) s1 g1) = kw_get t (obj_kwargs (e_name e) s2 g2)) ->
+  set_edges_for tri sel s1 g1 es a = set_edges_for tri sel s2 g2 es a.
+Proof.
+  induction es as [|e r IH]; intros a H; [reflexivity|]. cbn [set_edges_for]. destruct (sel e) eqn:Es.
+  - rewrite (edge_set_params_ext tri e a _ (obj_kwargs (e_name e) s2 g2)) by (intros t Ht; apply H; [left; reflexivity | exact Es | exact Ht]).
+    destruct (edge_set_params tri e a (obj_kwargs (e_name e) s2 g2)) as [e' [a'|]]; [|reflexivity].
+    rewrite (IH a') by (intros; apply H; [right|..]; assumption). reflexivity.
+  - rewrite (IH a) by (intros; apply H; [right|..]; assumption). reflexivity.
+Qed.
+(** the setters never change names or kinds, whether they raise or not *)
+Definition shape (es : list edge) : list (string * ekind) := map (fun e => (e_name e, e_kind e)) es.
+Lemma edge_set_params_shape tri e a kw :
+  e_name (fst (edge_set_params tri e a kw)) = e_name e /\ e_kind (fst (edge_set_params tri e a kw)) = e_kind e.
+Proof.
+  unfold edge_set_params. destruct (popfirst a) as [f a1]. destruct (check_unit _); [|split; reflexivity].
+  destruct (has_micro tri e); [|split; reflexivity]. destruct (popfirst a1) as [f2 a2]. destruct (check_unit _); split; reflexivity.
+Qed.
+Lemma set_edges_for_shape tri sel s g es : forall a, shape (fst (set_edges_for tri sel s g es a)) = shape es.
+Proof.
+  induction es as [|e r IH]; intros a; [reflexivity|]. cbn [set_edges_for]. destruct (sel e).
+  - pose proof (edge_set_params_shape tri e a (obj_kwargs (e_name e) s g)) as [Hn Hk].
+    destruct (edge_set_params tri e a (obj_kwargs (e_name e) s g)) as [e' [a'|]]; cbn [fst] in *.
+    + specialize (IH a'). destruct (set_edges_for tri sel s g r a') as [r' o]. cbn [fst shape map] in *. rewrite Hn, Hk. f_equal. exact IH.
+    + cbn [shape map]. rewrite Hn, Hk. reflexivity.
+  - specialize (IH a). destruct (set_edges_for tri sel s g r a) as [r' o]. cbn [fst shape map] in *. f_equal. exact IH.
+Qed.
+Lemma shape_names es es' : shape es = shape es' -> map e_name es = map e_name es'.
+Proof. unfold shape. intros H. apply (f_equal (map fst)) in H. rewrite !map_map in H. exact H. Qed.
+Lemma shape_sel_keys tri sel es : kind_sel sel -> forall es', shape es = shape es' ->
+  map fst (sel_params tri sel es) = map fst (sel_params tri sel es').
+Proof.
+  intros Hk. induction es as [|e r IH]; intros [|e' r'] H; cbn [shape map] in H; try discriminate; [reflexivity|].
+  injection H as Hn Hkd Hr. rewrite !sel_params_cons, !map_app. rewrite (IH r' Hr), (Hk e e' Hkd), Hn.
+  destruct (sel e'); [|reflexivity]. rewrite !pre_keys, (edge_params_keys_kind tri e e' Hkd). reflexivity.
+Qed.
+Lemma shape_filter_names sel es : kind_sel sel -> forall es', shape es = shape es' ->
+  map e_name (filter sel es) = map e_name (filter sel es').
+Proof.
+  intros Hk. induction es as [|e r IH]; intros [|e' r'] H; cbn [shape map] in H; try discriminate; [reflexivity|].
+  injection H as Hn Hkd Hr. cbn [filter]. rewrite (Hk e e' Hkd). destruct (sel e'); cbn [map]; rewrite ?Hn, (IH r' Hr); reflexivity.
+Qed.
+Lemma dist_assign_ext kws : forall a kw1 kw2,
+  (forall s, In s (map fst kws) -> kw_get [s] kw1 = kw_get [s] kw2) -> dist_assign kws a kw1 = dist_assign kws a kw2.
+Proof.
+  induction kws as [|[n v] r IH]; intros a kw1 kw2 H; [reflexivity|]. cbn [dist_assign]. unfold kw_get_or.
+  rewrite (H n) by (left; reflexivity). destruct (popfirst a) as [first a'].
+  rewrite (IH a' kw1 kw2) by (intros s Hs; apply H; right; exact Hs). reflexivity.
+Qed.
+Lemma dist_set_params_ext maxt d a kw1 kw2 :
+  (forall s, In s (map fst (match d with Param _ kws => kws | Frozen _ => [] end)) -> kw_get [s] kw1 = kw_get [s] kw2) ->
+  dist_set_params maxt d a kw1 = dist_set_params maxt d a kw2.
+Proof. intros H. destruct d as [p|f kws]; [reflexivity|]. cbn [dist_set_params]. rewrite (dist_assign_ext kws a kw1 kw2 H). reflexivity. Qed.
+Lemma set_dists_for_ext maxt s1 g1 s2 g2 ds : forall a,
+  (forall td s, In td ds -> In s (dist_kw_names [td]) ->
+     kw_get [s] (obj_kwargs (fst td) s1 g1) = kw_get [s] (obj_kwargs (fst td) s2 g2)) ->
+  set_dists_for maxt s1 g1 ds a = set_dists_for maxt s2 g2 ds a.
+Proof.
+  induction ds as [|[t d] r IH]; intros a H; [reflexivity|]. cbn [set_dists_for]. destruct d as [p|f kws].
+  - rewrite (IH a) by (intros; apply H; [right|]; assumption). reflexivity.
+  - rewrite (dist_set_params_ext maxt (Param f kws) a _ (obj_kwargs t s2 g2)).
+    + destruct (dist_set_params maxt (Param f kws) a (obj_kwargs t s2 g2)) as [d' [a'|]]; [|reflexivity].
+      rewrite (IH a') by (intros; apply H; [right|]; assumption). reflexivity.
+    + intros s Hs. apply (H (t, Param f kws)); [left; reflexivity|]. unfold dist_kw_names. cbn [flat_map snd]. rewrite app_nil_r. exact Hs.
+Qed.
+
+(** * plan: special cases *)
+Lemma plan_no_kw lk ps : forall v rest, (forall k, In k (map fst ps) -> lk k = None) -> length v = length ps ->
+  plan lk ps (map V v ++ rest) = map V v.
+Proof.
+  induction ps as [|[k old] r IH]; intros [|x v] rest H Hl; cbn [length] in Hl; try discriminate; [reflexivity|].
+  cbn [plan map app hd_error tl]. rewrite (H k) by (left; reflexivity). cbn [pick val_or]. f_equal.
+  apply IH; [intros k' Hk'; apply H; right; exact Hk' | lia].
+Qed.
+Lemma plan_all_kw lk ps : forall a vs, length vs = length ps ->
+  (forall k v, In (k, v) (combine (map fst ps) vs) -> lk k = Some v) -> plan lk ps a = vs.
+Proof.
+  induction ps as [|[k old] r IH]; intros a [|x vs] Hl H; cbn [length] in Hl; try discriminate; [reflexivity|].
+  cbn [plan]. cbn [map fst combine] in H. rewrite (H k x) by (left; reflexivity). cbn [pick]. f_equal.
+  apply IH; [lia | intros k' v' Hin; apply H; right; exact Hin].
+Qed.
+Lemma plan_In lk ps : forall a qs k q, plan lk ps a = map V qs -> In k (map fst ps) -> lk k = Some (V q) ->
+  In (k, q) (combine (map fst ps) qs).
+Proof.
+  induction ps as [|[k' old] r IH]; intros a qs k q Hp Hin Hlk; [destruct Hin|].
+  cbn [plan] in Hp. destruct qs as [|x qs]; [discriminate|]. cbn [map] in Hp. injection Hp as Hx Hp.
+  cbn [map fst combine]. cbn [map fst] in Hin. destruct Hin as [->|Hin].
+  - left. rewrite Hlk in Hx. cbn [pick] in Hx. injection Hx as ->. reflexivity.
+  - right. exact (IH _ _ _ _ Hp Hin Hlk).
+Qed.
+
+Lemma sel_params_heads tri sel es k : In k (map fst (sel_params tri sel es)) ->
+  exists e s, In e es /\ sel e = true /\ k = [e_name e; s] /\ In s ["spread"; "growth"; "micro"].
+Proof.
+  unfold sel_params. rewrite map_flat_map'. intros H. apply in_flat_map in H. destruct H as (e & He & Hk).
+  destruct (sel e) eqn:Es; [|destruct Hk]. rewrite pre_keys in Hk. apply in_map_iff in Hk. destruct Hk as (t & <- & Ht).
+  rewrite edge_params_cases in Ht. exists e.
+  destruct (is_growth e); [|destruct (has_micro tri e)]; cbn in Ht;
+    repeat (destruct Ht as [<-|Ht]; [eexists; repeat split; try eassumption; cbn; auto|]); destruct Ht.
+Qed.
+Lemma dists_items_heads ds k : In k (map fst (dists_items ds)) ->
+  exists t s, In t (map fst ds) /\ k = [t; s] /\ In s (dist_kw_names ds).
+Proof.
+  unfold dists_items, dist_kw_names. rewrite map_flat_map'. intros H. apply in_flat_map in H. destruct H as (td & Htd & Hk).
+  rewrite pre_keys in Hk. apply in_map_iff in Hk. destruct Hk as (t & <- & Ht).
+  destruct (snd td) as [p|f kws] eqn:Ed; cbn [dist_local map] in Ht; [destruct Ht|].
+  rewrite map_map in Ht. cbn [fst] in Ht. apply in_map_iff in Ht. destruct Ht as (kv & <- & Hkv).
+  exists (fst td), (fst kv). repeat split.
+  - apply in_map, Htd.
+  - apply in_flat_map. exists td. split; [exact Htd|]. rewrite Ed. apply in_map, Hkv.
+Qed.
+
+(** * Keys classified by their first component *)
+Definition heads_in (P : string -> Prop) (K : list path) : Prop := forall k, In k K -> P (head_of k).
+Lemma heads_in_nil P : heads_in P [].
+Proof. intros k []. Qed.
+Lemma heads_in_app P K1 K2 : heads_in P K1 -> heads_in P K2 -> heads_in P (K1 ++ K2).
+Proof. intros H1 H2 k Hk. apply in_app_iff in Hk. destruct Hk; auto. Qed.
+Lemma heads_in_weaken (P Q : string -> Prop) K : (forall s, P s -> Q s) -> heads_in P K -> heads_in Q K.
+Proof. intros HPQ H k Hk. apply HPQ, H, Hk. Qed.
+Lemma heads_in_cons_path (P : string -> Prop) h p K : P h -> heads_in P (map (app (h :: p)) K).
+Proof. intros Hh k Hk. apply in_map_iff in Hk. destruct Hk as (t & <- & _). exact Hh. Qed.
+Lemma heads_in_single (P : string -> Prop) h t : P h -> heads_in P [h :: t].
+Proof. intros Hh k [<-|[]]. exact Hh. Qed.
+Lemma fresh_by_heads (P Q : string -> Prop) K1 K2 :
+  heads_in P K1 -> heads_in Q K2 -> (forall s, P s -> Q s -> False) -> forall k, In k K1 -> ~ In k K2.
+Proof. intros H1 H2 Hd k Hk1 Hk2. exact (Hd _ (H1 k Hk1) (H2 k Hk2)). Qed.
+Lemma NoDup_app_heads (P Q : string -> Prop) (K1 K2 : list path) :
+  NoDup K1 -> NoDup K2 -> heads_in P K1 -> heads_in Q K2 -> (forall s, P s -> Q s -> False) -> NoDup (K1 ++ K2).
+Proof. intros N1 N2 H1 H2 Hd. apply NoDup_app_intro; [exact N1 | exact N2 | apply (fresh_by_heads P Q); assumption]. Qed.
+
+Lemma sel_params_heads_in tri sel es : heads_in (fun s => In s (map e_name (filter sel es))) (map fst (sel_params tri sel es)).
+Proof.
+  intros k Hk. apply sel_params_heads in Hk. destruct Hk as (e & s & Hin & Hs & -> & _). cbn.
+  apply in_map, filter_In. split; assumption.
+Qed.
+Lemma edges_nested_keys tri es : map fst (edges_nested tri es) = map (fun n => [n]) (map e_name es).
+Proof. unfold edges_nested. rewrite !map_map. reflexivity. Qed.
+Lemma edges_nested_heads_in tri es : heads_in (fun s => In s (map e_name es)) (map fst (edges_nested tri es)).
+Proof. rewrite edges_nested_keys. intros k Hk. apply in_map_iff in Hk. destruct Hk as (n & <- & Hn). exact Hn. Qed.
+Lemma edges_nested_keys_NoDup tri es : NoDup (map e_name es) -> NoDup (map fst (edges_nested tri es)).
+Proof. intros H. rewrite edges_nested_keys. apply NoDup_map_inj; [intros x y [= Hxy]; exact Hxy | exact H]. Qed.
+Lemma dists_items_heads_in ds : heads_in (fun s => In s (map fst ds)) (map fst (dists_items ds)).
+Proof. intros k Hk. apply dists_items_heads in Hk. destruct Hk as (t & s & Ht & -> & _). exact Ht. Qed.
+Lemma dists_nested_heads_in ds : heads_in (fun s => In s (map fst ds)) (map fst (dists_nested ds)).
+Proof.
+  intros k Hk. unfold dists_nested in Hk. rewrite map_flat_map' in Hk. apply in_flat_map in Hk. destruct Hk as (td & Htd & Hk).
+  destruct (snd td); [destruct Hk|]. destruct Hk as [<-|[]]. cbn. apply in_map, Htd.
+Qed.
+Lemma dists_nested_keys_NoDup ds : NoDup (map fst ds) -> NoDup (map fst (dists_nested ds)).
+Proof.
+  intros H. unfold dists_nested. induction ds as [|[t d] r IH]; [constructor|]. cbn [flat_map map fst snd] in *. inversion H; subst.
+  destruct d; cbn [app map fst]; [apply IH; assumption|]. constructor; [|apply IH; assumption].
+  intros Hin. rewrite map_flat_map' in Hin. apply in_flat_map in Hin. destruct Hin as (td & Htd & Hin).
+  destruct (snd td); [destruct Hin|]. destruct Hin as [Heq|[]]. injection Heq as Heq.
+  match goal with Hn : ~ In t _ |- _ => apply Hn end. rewrite <- Heq. apply in_map, Htd.
+Qed.
+
+(** pd_sub / pd_update_at on explicit dictionaries *)
+Lemma pd_sub_here k cs d : pd_sub k ((k, Node cs) :: d) = cs.
+Proof. unfold pd_sub. cbn [kw_get]. rewrite path_eqb_refl. reflexivity. Qed.
+Lemma pd_sub_skip k k' t d : k <> k' -> pd_sub k ((k', t) :: d) = pd_sub k d.
+Proof. intros H. unfold pd_sub. cbn [kw_get]. rewrite (path_eqb_neq _ _ H). reflexivity. Qed.
+Lemma pd_update_at_here k src cs d : pd_update_at k src ((k, Node cs) :: d) = (k, Node (kw_update src cs)) :: d.
+Proof. cbn [pd_update_at]. rewrite path_eqb_refl. reflexivity. Qed.
+Lemma pd_update_at_skip k k' src t d : k <> k' -> pd_update_at k src ((k', t) :: d) = (k', t) :: pd_update_at k src d.
+Proof. intros H. cbn [pd_update_at]. rewrite (path_eqb_neq _ _ H). reflexivity. Qed.
+
+Lemma shape_eqb_shape es1 es2 : shape_eqb es1 es2 = true -> shape es1 = shape es2.
+Proof.
+  revert es2. induction es1 as [|e1 r1 IH]; intros [|e2 r2] H; cbn [shape_eqb] in H; try discriminate; [reflexivity|].
+  apply andb_true_iff in H. destruct H as [H Hr]. apply andb_true_iff in H. destruct H as [Hn Hk].
+  apply String.eqb_eq in Hn. apply Nat.eqb_eq in Hk. specialize (IH _ Hr). unfold shape in *. cbn [map]. rewrite Hn, IH. f_equal. f_equal.
+  destruct (e_kind e1), (e_kind e2); cbn in Hk; congruence.
+Qed.
+
+(** * More on unflatten_and_split: the parts are dictionaries *)
+Lemma unflatten_glob_NoDup kw X : NoDup (map fst (snd (unflatten_and_split kw X))).
+Proof.
+  rewrite unflatten_fold.
+  assert (H : forall l acc, NoDup (map fst (snd acc)) -> NoDup (map fst (snd (fold_left (unflat_step X) l acc)))).
+  { induction l as [|kv l IH]; intros acc Hacc; [exact Hacc|]. cbn [fold_left]. apply IH.
+    destruct acc as [split glob]. unfold unflat_step. destruct (partition_key (fst kv)) as [hd tl].
+    destruct (mem hd X); cbn [snd] in *; [exact Hacc | apply kw_set_NoDup, Hacc]. }
+  apply H. constructor.
+Qed.
+Lemma obj_kwargs_NoDup kw X name split glob :
+  unflatten_and_split kw X = (split, glob) -> NoDup (map fst (obj_kwargs name split glob)).
+Proof.
+  intros Hu. unfold obj_kwargs. apply kw_update_NoDup. pose proof (unflatten_glob_NoDup kw X) as H. rewrite Hu in H. exact H.
+Qed.
+
+Lemma filter_names_NoDup' (sel : edge -> bool) es : NoDup (map e_name es) -> NoDup (map e_name (filter sel es)).
+Proof. intros H. apply (NoDup_app_l _ _ (NoDup_map_filter_split e_name sel es H)). Qed.
+
+(** * synchronize_params *)
+Lemma find_edge_NoDup es ef : NoDup (map e_name es) -> In ef es -> find_edge (e_name ef) es = Some ef.
+Proof.
+  induction es as [|e r IH]; intros Hnd Hin; [destruct Hin|]. cbn [find_edge map] in *. inversion Hnd as [|? ? Hni Hnd']; subst.
+  destruct Hin as [->|Hin]; [rewrite str_eqb_refl; reflexivity|].
+  rewrite str_eqb_neq; [apply IH; assumption|]. intros Heq. apply Hni. rewrite <- Heq. apply in_map, Hin.
+Qed.
+Lemma edge_kwargs_eq tri e : edge_kwargs tri e = map (fun kv => (fst kv, V (snd kv))) (edge_params tri e).
+Proof. reflexivity. Qed.
+Lemma edge_sync_step tri e ef : e_kind e = e_kind ef -> forallb in_unit (map snd (edge_params tri ef)) = true ->
+  edge_set_params tri e [] (edge_kwargs tri ef) = (edge_put tri e (map snd (edge_params tri ef)), Some []).
+Proof.
+  intros Hk Hu.
+  assert (Hp : plan (fun t => kw_get t (edge_kwargs tri ef)) (edge_params tri e) [] = map V (map snd (edge_params tri ef))).
+  { apply plan_all_kw.
+    - rewrite !map_length. rewrite <- (map_length fst (edge_params tri e)), (edge_params_keys_kind tri e ef Hk), map_length. reflexivity.
+    - intros k v Hin. rewrite (edge_params_keys_kind tri e ef Hk) in Hin.
+      apply kw_get_NoDup_In.
+      + rewrite edge_kwargs_eq, map_map. cbn [fst]. apply edge_params_keys_NoDup.
+      + rewrite edge_kwargs_eq. clear - Hin. induction (edge_params tri ef) as [|[k' x] l IH]; [destruct Hin|].
+        cbn [map fst snd combine] in *. destruct Hin as [[= <- <-]|Hin]; [left; reflexivity | right; apply IH, Hin]. }
+  rewrite (edge_set_params_ok tri e [] _ (map snd (edge_params tri ef))).
+  - destruct (length (edge_params tri e)); reflexivity.
+  - rewrite Hp. apply all_unit_vals, Hu.
+Qed.
+Lemma sync_edges_aligned tri sel from : NoDup (map e_name from) -> kind_sel sel ->
+  forall to fr, shape to = shape fr -> (forall e, In e fr -> In e from) ->
+    forallb in_unit (map snd (sel_params tri sel fr)) = true ->
+    sync_edges tri tri sel from to = (edges_put tri sel to (map snd (sel_params tri sel fr)), true).
+Proof.
+  intros Hnd Hk. induction to as [|e r IH]; intros [|ef fr] Hs Hsub Hu; cbn [shape map] in Hs; try discriminate; [reflexivity|].
+  injection Hs as Hn Hkd Hr. cbn [sync_edges edges_put]. rewrite sel_params_cons, map_app, forallb_app in Hu.
+  apply andb_true_iff in Hu. destruct Hu as [Hu1 Hu2]. rewrite sel_params_cons, map_app.
+  rewrite (Hk e ef Hkd) in *. destruct (sel ef) eqn:Es.
+  - rewrite pre_vals in *. rewrite Hn.
+    rewrite (find_edge_NoDup (filter sel from) ef).
+    + rewrite (edge_sync_step tri e ef Hkd Hu1).
+      rewrite (IH fr Hr (fun e' H' => Hsub e' (or_intror H')) Hu2).
+      assert (Hlen : length (map snd (edge_params tri ef)) = length (edge_params tri e)).
+      { rewrite map_length, <- (map_length fst (edge_params tri ef)), <- (edge_params_keys_kind tri e ef Hkd), map_length. reflexivity. }
+      rewrite firstn_app_len, skipn_app_len by exact Hlen. reflexivity.
+    + apply filter_names_NoDup', Hnd.
+    + apply filter_In. split; [apply Hsub; left; reflexivity | exact Es].
+  - cbn [app] in *. rewrite (IH fr Hr (fun e' H' => Hsub e' (or_intror H')) Hu2). reflexivity.
+Qed.
+Lemma edges_put_shape tri sel es qs : shape (edges_put tri sel es qs) = shape es.
+Proof.
+  unfold shape. revert qs. induction es as [|e r IH]; intros qs; [reflexivity|]. cbn [edges_put].
+  destruct (sel e); cbn [map]; rewrite ?edge_put_name, ?edge_put_kind, IH; reflexivity.
 Qed.
